@@ -698,6 +698,15 @@ def x_For(self: Interp, s: ast.For, st: State):
 
     kv = inv.var
     nz = to_z3(n)
+    for lname, ltype in getattr(inv, "locals", {}).items():
+        # an empty list literal has no element type: give its (absent) elements the declared one, so that the
+        # invariant may mention lname[i] under a guard that is false for the empty list
+        v = st.env.get(lname)
+        if isinstance(v, Ref) and v.what == "arr":
+            cell = st.heap[v.rid]
+            if cell.kind == "list" and cell.etype == "any" and self.concrete_int(cell.shape[0]) == 0:
+                dummy = fresh("seq[" + ltype + "]", lname + "#none", st, self)
+                st.heap[v.rid] = Arr((0,), dummy.elem, kind="list", etype=ltype)
 
     def check_inv(state, kval, kind, label):
         state.env[kv] = kval
